@@ -3,7 +3,7 @@
     Model: Model/Eval.v (the four [eval] methods with their caches, leaf assignment). *)
 From Coq Require Import List QArith Reals Qreals Lra.
 From PV Require Import Base.IPS Model.Dict Model.Terms Model.Dump Model.Eval Model.Resolve Spec.Sem Spec.GramSem
-  Proofs.DictLemmas Proofs.C02Vec Proofs.C02Cache Proofs.C02Main Proofs.C02Factor.
+  Proofs.DictLemmas Proofs.C02Vec Proofs.C02Cache Proofs.C02Main Proofs.C02Factor Proofs.C02FactorReading.
 From PV Require Spec.KKT.
 From PV Require Import Model.FactorPlan Gen.Factor.
 Import ListNotations.
@@ -170,6 +170,27 @@ Theorem C02_projection_error_bound :
       Rabs (G i j - proj n lam V i j) <= eps * KKT.sumn n (fun k => Rabs (V i k * V j k)).
 Proof. exact projection_error_bound. Qed.
 
+(** Composition with the Gram reading: when the coordinates of the evaluated leaf points are the columns of that R
+    factor (what the leaf assignment gives), every dictionary over the n leaf points has at the returned instance
+    exactly the value the solver saw at the PSD projection of its Gram matrix -- at the Gram matrix itself when it has
+    no negative eigenvalue.  No hypothesis about numpy is left except the specifications of eigh and qr. *)
+Theorem C02_instance_reads_projection :
+  forall n st G lam V Qm Rm,
+    eigh_spec n G lam V -> qr_spec n (scaled_T lam V) Qm Rm ->
+    (forall k b, (k < n)%nat -> (b < n)%nat -> (rho_of n st k : nat -> R) b = Rm b k) ->
+    forall d, keys_below n d ->
+      evalE (rho_of n st) (phi_of st) d = evalGF (proj n lam V) (phi_of st) d.
+Proof. exact instance_reads_projection. Qed.
+
+Theorem C02_instance_reads_gram :
+  forall n st G lam V Qm Rm,
+    eigh_spec n G lam V -> qr_spec n (scaled_T lam V) Qm Rm ->
+    (forall k, (k < n)%nat -> 0 <= lam k) ->
+    (forall k b, (k < n)%nat -> (b < n)%nat -> (rho_of n st k : nat -> R) b = Rm b k) ->
+    forall d, keys_below n d ->
+      evalE (rho_of n st) (phi_of st) d = evalGF G (phi_of st) d.
+Proof. exact instance_reads_gram. Qed.
+
 (** Tie of the factorisation theorems to the source: the plan REGENERATED from pep.py on every run is eigh, clipping
     of the negative eigenvalues, QR of (sqrt(eig_val) * eig_vec)^T keeping R -- what [eigh_spec] / [scaled_T] /
     [qr_spec] formalise -- and every leaf value assigned afterwards is column x.counter of that R (points) or
@@ -200,3 +221,5 @@ Print Assumptions C02_projection_psd.
 Print Assumptions C02_projection_is_identity_on_psd.
 Print Assumptions C02_projection_error_bound.
 Print Assumptions C02_factor_plan_modelled.
+Print Assumptions C02_instance_reads_projection.
+Print Assumptions C02_instance_reads_gram.
